@@ -361,6 +361,21 @@ def E2() -> bool:
     return run(body_E2, "X", {})
 
 
+def body_E3(ctx):
+    """C05 E2's asyncio tasks (all gate orders): uniqueness / contiguity / order of the merged stream."""
+    from props import c05
+
+    received = c05.body_E2(ctx)
+    placement_oracle(ctx, received, "asyncio tasks")
+
+
+def E3() -> bool:
+    """
+    post: _
+    """
+    return run(body_E3, "X", {})
+
+
 def _e2_shards(tier):
     from props import c05
 
@@ -413,6 +428,18 @@ OBLIGATIONS = [
         twin=[{"workers": 2, "P": 1, "preserve": 1, "twin_label": "interleaved"}],
         timeout={"quick": 100, "thorough": 1500},
         bounds={"quick": "3 worker programs each for 2 threads, plain or preserve_context, <= 1 preemption at call granularity in eliot/_action.py", "thorough": "additionally plain threads with <= 2 preemptions"},
+    ),
+    Ob(
+        "E3",
+        E3,
+        body_E3,
+        "X",
+        desc="asyncio tasks with nested actions spanning awaits, every gate order: merged stream unique, contiguous per action, emitted in position order",
+        functions=["Action._nextTaskLevel", "start_action", "log_message", "Action.__enter__/__exit__"],
+        shards={"quick": [{"tasks": 2, "awaits": 3}, {"tasks": 3, "awaits": 2}, {"tasks": 2, "awaits": 2, "shared": 1}], "thorough": [{"tasks": 3, "awaits": 3}, {"tasks": 3, "awaits": 2, "shared": 1}]},
+        twin=[{"tasks": 2, "awaits": 3, "twin_label": "interleaved"}],
+        timeout={"quick": 100, "thorough": 600},
+        bounds={"quick": "2 tasks x 3 awaits, 3 tasks x 2 awaits, 2 tasks entering the shared parent's context(); all gate orders", "thorough": "3 tasks x 3 awaits"},
     ),
     Ob("L7", L7, body_L7, "S", desc="TaskLevel order = tree pre-order", functions=["TaskLevel.__lt__", "__le__", "__gt__", "__ge__", "__eq__", "__hash__", "next_sibling", "child", "parent"], bounds={"quick": "levels of depth <= 4 (+2), any positions j<k, m>=1"}, timeout={"quick": 120, "thorough": 300}),
 ]
